@@ -54,7 +54,11 @@ def worker_main(pid):
     for u in units:
         t0 = time.time()
         try:
-            r = mod.run_unit(u)
+            if u.get('kind') == 'lazy':             # shared workload: lazily consumed iselect with caller edits (vlib/lazy.py)
+                from . import lazy
+                r = lazy.run_unit(u, sig)
+            else:
+                r = mod.run_unit(u)
         except BaseException as ex:  # noqa: BLE001 - a crashing harness is reported, not hidden
             import traceback
             r = {'evals': 0, 'sigs': [], 'viol': [], 'samples': [], 'counters': {},
@@ -264,7 +268,11 @@ def run_replay(pid, path):
     mod = load(pid)
     with open(path) as f:
         w = json.load(f)
-    r = mod.replay(w)
+    if 'lazy' in w:
+        from . import lazy
+        r = lazy.replay(w, sig)
+    else:
+        r = mod.replay(w)
     if r is None:
         print('replay: %s no longer violates %s on %s' % (path, pid, env.REPO))
         return 0
